@@ -67,6 +67,8 @@ class ModesTaint:
                 return self.derived(e.args[0])
             if nm in ("concatenate", "hstack", "stack", "column_stack", "ravel", "flatten", "reshape") and e.args:
                 return self.derived(e.args[0])
+        if isinstance(e, ast.Subscript) and isinstance(e.slice, ast.Slice) and e.slice.step is None:
+            return self.derived(e.value)   # a prefix / suffix of the tuple keeps its order
         if isinstance(e, ast.BinOp) and isinstance(e.op, (ast.Add, ast.Sub, ast.Mult)):
             l, r = self.derived(e.left), self.derived(e.right)
             const = lambda x: isinstance(x, ast.Constant) or (isinstance(x, ast.Name) and x.id not in self.t)  # noqa: E731
@@ -503,6 +505,11 @@ def mode_masks(ctx: Context, idx, res, reg) -> None:
                 elts = sl.elts if isinstance(sl, ast.Tuple) else [sl]
                 if any(mt.derived(e) for e in elts):
                     masks.add(n.targets[0].value.id)
+        # membership masks: np.isin(np.arange(d), modes) / np.in1d(...)
+        for n in walk_no_nested(fn.node):
+            if isinstance(n, ast.Assign) and len(n.targets) == 1 and isinstance(n.targets[0], ast.Name) and isinstance(n.value, ast.Call) \
+                    and (dotted(n.value.func) or "").split(".")[-1] in ("isin", "in1d") and len(n.value.args) >= 2 and mt.derived(n.value.args[1]):
+                masks.add(n.targets[0].id)
         # the complement of the mask of the complement is a mask of the mode tuple too: `aux[get_auxiliary_modes(d, modes)] = True;
         # active = ~aux` (also np.logical_not / np.invert)
         comp_masks: Set[str] = set()
@@ -520,9 +527,11 @@ def mode_masks(ctx: Context, idx, res, reg) -> None:
                     v.args[0] if isinstance(v, ast.Call) and (dotted(v.func) or "").split(".")[-1] in ("logical_not", "invert") and v.args else None)
                 if isinstance(neg, ast.Name) and neg.id in comp_masks:
                     masks.add(n.targets[0].id)
-        if not masks:
+        inline_masks = any(isinstance(c_, ast.Call) and (dotted(c_.func) or "").split(".")[-1] in ("isin", "in1d") and len(c_.args) >= 2 and mt.derived(c_.args[1])
+                           for c_ in walk_no_nested(fn.node))
+        if not masks and not inline_masks:
             continue
-        n_masks += len(masks)
+        n_masks += len(masks) + (1 if inline_masks and not masks else 0)
         for n in walk_no_nested(fn.node):
             if isinstance(n, ast.Assign) and len(n.targets) == 1 and isinstance(n.targets[0], ast.Subscript):
                 t = n.targets[0]
@@ -533,6 +542,18 @@ def mode_masks(ctx: Context, idx, res, reg) -> None:
                     ctx.violation("C16d", key, fn.file, n.lineno,
                                   f"`{norm(n)[:80]}` stores per-mode data through the boolean mask `{used[0].id}` built from the mode tuple: the mask "
                                   f"enumerates the modes in ascending order, so for Q(2, 0) the values end up on the wrong modes", norm(n)[:100])
+        # selections: `basis[:, mask]` lists the selected modes in ascending order; the result is per-mode data in another order than requested
+        for n in walk_no_nested(fn.node):
+            if isinstance(n, ast.Subscript) and isinstance(n.ctx, ast.Load) and not (isinstance(n.value, ast.Name) and n.value.id in masks):
+                sl = n.slice.elts if isinstance(n.slice, ast.Tuple) else [n.slice]
+                used = [e for e in sl if (isinstance(e, ast.Name) and e.id in masks) or (
+                    isinstance(e, ast.Call) and (dotted(e.func) or "").split(".")[-1] in ("isin", "in1d") and len(e.args) >= 2 and mt.derived(e.args[1]))]
+                if used:
+                    key = f"{fn.qualname}|selection through the mode mask {norm(used[0])[:30]}"
+                    ctx.violation("C16d", key, fn.file, n.lineno,
+                                  f"`{norm(n)[:80]}` selects per-mode data through the boolean mask `{norm(used[0])[:40]}` built from the mode tuple: the "
+                                  f"selection lists the modes in ascending order, so for Q(3, 1) the occupation numbers come out as (mode 1, mode 3)",
+                                  norm(n)[:100])
     ctx.count("C16d boolean masks built from a mode tuple", n_masks)
 
 
